@@ -59,7 +59,7 @@ struct WkdRun {
         // object re-use: one time in five the destination is a SecretKey object (struct and array) that still holds an earlier key of this
         // system - what a C or Go caller gets when it keeps one object for successive results. Its array has the old capacity.
         const KeyM* stale = nullptr;
-        if (!keys.empty() && (keys.size() * 3 + (size_t) env.step) % 5 == 0) { const KeyM& o = keys[((size_t) env.step * 11 + keys.size()) % keys.size()]; if (o.sk.p && !o.tainted) stale = &o; }
+        if (!keys.empty() && (keys.size() * 3 + (size_t) env.step) % 5 == 0) { const KeyM& o = keys[((size_t) env.step * 11 + keys.size()) % keys.size()]; if (o.sk.p && !o.tainted && o.barr.p) stale = &o; }
         int stale_l = stale ? R.jv_wk_sk_l(stale->sk) : 0; if (stale && (stale_l < 0 || (size_t) stale_l > stale->cap)) stale = nullptr;
         if (stale) { k.cap = std::max(cap, (size_t) stale_l); cap = k.cap; }
         k.cap_alloc = R.info.sanitized ? cap : std::max(cap, (size_t) sys.l) + 2;
@@ -385,8 +385,13 @@ struct WkdRun {
         Buf pre(R.sz(JV_SZ_WK_PRE)); make_pre(pre, L);
         size_t pl = count_free(pk->pat);
         KeyM k = newkey(further ? pl : 0);
+        // one time in six the destination is a copy of the source key's struct - `fresh = old;` - so the two objects share one slot array: the call
+        // re-randomises the elements where they are (the old key object is spent afterwards)
+        bool shallow = further && pl > 0 && ((op.arg(0) >> 3) % 6) == 0 && pk->barr.p && R.jv_wk_sk_barray(pk->sk) == (void*) pk->barr.p;
+        if (shallow) { k = KeyM(); k.sk.alloc(R.sz(JV_SZ_WK_SK)); memcpy(k.sk.p, pk->sk.p, k.sk.n); k.cap = k.cap_alloc = pk->cap; env.count("fault:destination_key_is_a_struct_copy_sharing_the_source_slot_array"); }
         std::vector<std::string> sf = trailing_faults(op, 0);
         call_begin((uint64_t) op.arg(0), &sf); R.jv_wk_resamplekey(view, k.sk, sys.params, pre, pk->sk, further, jv_rand_cb);
+        if (shallow) pk->tainted = true;
         k.rho = Bn::addmod(pk->rho, drawn_scalar("resamplekey"), K().r);
         k.pat = pk->pat; if (!further) for (auto& s : k.pat) if (s.st == ST_FREE) s.st = ST_HIDDEN;
         std::vector<Slot> ppat = pk->pat;
